@@ -7,10 +7,15 @@ import (
 	"github.com/nyaruka/gocommon/urns"
 	"github.com/nyaruka/goflow/assets"
 	"github.com/nyaruka/goflow/assets/static"
+	"github.com/nyaruka/goflow/contactql"
 	"github.com/nyaruka/goflow/envs"
 	"github.com/nyaruka/goflow/flows"
+	"github.com/nyaruka/goflow/flows/actions"
+	"github.com/nyaruka/goflow/flows/definition"
 	"github.com/nyaruka/goflow/flows/events"
 	"github.com/nyaruka/goflow/flows/resumes"
+	"github.com/nyaruka/goflow/flows/routers"
+	"github.com/nyaruka/goflow/flows/routers/waits"
 	"github.com/nyaruka/goflow/flows/triggers"
 	"github.com/nyaruka/goflow/zzverif"
 )
@@ -184,4 +189,184 @@ func VerifC03_ResumeRefresh() {
 		}
 	}
 	zzverif.Assert(verifSameSnapshot(view, verifContactView(s.contact, sa)), "replaying the sprint's contact events over the contact before the resume does not reproduce the session contact")
+}
+
+// ---- a whole sprint's events over the contact before it -----------------
+
+type verifCV struct {
+	name, language, status, timezone, nick, ticket, lastSeen string
+	urns                                                     []string
+	groups                                                   map[string]bool
+}
+
+func verifCVOf(c *flows.Contact, sa *verifAssets) *verifCV {
+	v := &verifCV{name: c.Name(), language: string(c.Language()), status: string(c.Status()), groups: map[string]bool{}, nick: "<unset>"}
+	if c.Timezone() != nil {
+		v.timezone = c.Timezone().String()
+	}
+	for _, u := range c.URNs() {
+		v.urns = append(v.urns, string(u.URN()))
+	}
+	for _, g := range c.Groups().All() {
+		v.groups[string(g.UUID())] = true
+	}
+	if val := c.Fields().Get(sa.fields.Get("nick")); val != nil {
+		v.nick = val.Text.Native()
+	}
+	if c.Ticket() != nil {
+		v.ticket = string(c.Ticket().UUID())
+	}
+	if c.LastSeenOn() != nil {
+		v.lastSeen = c.LastSeenOn().String()
+	}
+	return v
+}
+
+func (v *verifCV) render() []string {
+	out := []string{v.name, v.language, v.status, v.timezone, v.nick, v.ticket, v.lastSeen, "urns"}
+	out = append(out, v.urns...)
+	for _, g := range []string{"g-static", "g-named"} {
+		if v.groups[g] {
+			out = append(out, g)
+		}
+	}
+	return out
+}
+
+// the reference applier, written from the event documentation
+func (v *verifCV) apply(evs []flows.Event, receivedOn string) {
+	for _, e := range evs {
+		switch t := e.(type) {
+		case *events.ContactNameChangedEvent:
+			v.name = t.Name
+		case *events.ContactLanguageChangedEvent:
+			v.language = t.Language
+		case *events.ContactStatusChangedEvent:
+			v.status = string(t.Status)
+		case *events.ContactTimezoneChangedEvent:
+			v.timezone = t.Timezone
+		case *events.ContactURNsChangedEvent:
+			v.urns = nil
+			for _, u := range t.URNs {
+				v.urns = append(v.urns, string(u))
+			}
+		case *events.ContactFieldChangedEvent:
+			if t.Value == nil {
+				v.nick = "<unset>"
+			} else {
+				v.nick = t.Value.Text.Native()
+			}
+		case *events.ContactGroupsChangedEvent:
+			for _, g := range t.GroupsAdded {
+				v.groups[string(g.UUID)] = true
+			}
+			for _, g := range t.GroupsRemoved {
+				v.groups[string(g.UUID)] = false
+			}
+		case *events.MsgReceivedEvent:
+			v.lastSeen = receivedOn
+		}
+	}
+}
+
+func verifContactAction(name string, uuid flows.ActionUUID) flows.Action {
+	static := []*assets.GroupReference{assets.NewGroupReference("g-static", "Static")}
+	switch 1 + zzverif.Choice(name, 11) {
+	case 1:
+		return actions.NewSetContactName(uuid, verifAsciiName(name+"-name"))
+	case 2:
+		return actions.NewSetContactName(uuid, "")
+	case 3:
+		return actions.NewSetContactLanguage(uuid, "fra")
+	case 4:
+		return actions.NewSetContactField(uuid, assets.NewFieldReference("nick", "Nick"), "bobby")
+	case 5:
+		return actions.NewSetContactField(uuid, assets.NewFieldReference("nick", "Nick"), "")
+	case 6:
+		return actions.NewAddContactGroups(uuid, static)
+	case 7:
+		return actions.NewRemoveContactGroups(uuid, static, false)
+	case 8:
+		return actions.NewRemoveContactGroups(uuid, nil, true)
+	case 9:
+		return actions.NewAddContactURN(uuid, "twitter", "jim")
+	case 10:
+		return actions.NewSetContactStatus(uuid, []flows.ContactStatus{flows.ContactStatusBlocked, flows.ContactStatusActive}[zzverif.Choice(name+"-status", 2)])
+	}
+	return actions.NewSetContactTimezone(uuid, "Africa/Kigali")
+}
+
+// VerifC03_SprintActions: a flow with a contact-changing action before a wait
+// and another after it — each any of: set name (to an arbitrary one-character
+// name, which joins or leaves the query group on the name, or to none), language, field (set / clear), add to /
+// remove from a static group, remove from all groups, add a URN, status
+// (blocked / active), timezone — run by the real engine for a contact with an
+// arbitrary starting name, field, static and (possibly stale) query based
+// membership and status, started by a
+// manual or a msg trigger and resumed by a message: after each sprint,
+// replaying the sprint's events in order over the contact as it was before
+// the sprint reproduces the session's contact (query based membership and
+// last-seen included).
+// cover: first-sprint, second-sprint, blocked-contact, msg-trigger, manual-trigger
+func VerifC03_SprintActions() {
+	env := envs.NewBuilder().Build()
+	sa := verifNewAssets()
+	sa.fields = flows.NewFieldAssets([]assets.Field{&verifFieldAsset{"nick", assets.FieldTypeText}})
+	gNamed := flows.VerifQueryGroup(env, sa.fields, "g-named", "Named", contactql.NewCondition(contactql.PropertyTypeAttribute, contactql.AttributeName, contactql.OpEqual, "a"))
+	zzverif.Assert(gNamed != nil, "setup: query group did not validate")
+	var groups []*flows.Group
+	sa.groups, groups = flows.VerifGroupAssets(env, sa.fields, flows.VerifStaticGroup("g-static", "Static"), gNamed)
+
+	cats := []flows.Category{routers.NewCategory("c0", "All", "e0")}
+	router := routers.NewSwitch(waits.NewMsgWait(nil, nil), "", cats, "x", nil, "c0")
+	n0 := definition.NewNode("f0n0", []flows.Action{verifContactAction("action-before-wait", "a0")}, router, []flows.Exit{definition.NewExit("e0", "f0n1")})
+	n1 := definition.NewNode("f0n1", []flows.Action{verifContactAction("action-after-wait", "a1")}, nil, []flows.Exit{definition.NewExit("e1", "")})
+	f, err := definition.NewFlow(verifFlowUUID(0), "F0", "eng", flows.FlowTypeMessaging, 1, 10, definition.NewLocalization(), []flows.Node{n0, n1}, nil, nil)
+	zzverif.Assert(err == nil, "setup: flow did not validate")
+	sa.add(f)
+
+	contact := flows.NewEmptyContact(sa, []string{"Bob", "a"}[zzverif.Choice("old-name", 2)], "eng", nil)
+	contact.AddURN(urns.URN("twitter:bob"), nil)
+	if zzverif.Choice("has-nick", 2) == 1 {
+		fd := sa.fields.Get("nick")
+		contact.Fields().Set(fd, contact.Fields().Parse(env, sa.fields, fd, "bobby"))
+	}
+	if zzverif.Choice("blocked", 2) == 1 {
+		contact.SetStatus(flows.ContactStatusBlocked)
+		zzverif.Cover("blocked-contact")
+	} else {
+		if zzverif.Choice("in-static-group", 2) == 1 {
+			contact.Groups().Add(groups[0])
+		}
+		// stored query based membership may be stale: the engine corrects it, announced
+		if zzverif.Choice("in-named-group", 2) == 1 {
+			contact.Groups().Add(groups[1])
+		}
+	}
+	view := verifCVOf(contact, sa)
+	trig := verifTrigger(sa, contact)
+	if trig.Type() == "msg" {
+		zzverif.Cover("msg-trigger")
+	} else {
+		zzverif.Cover("manual-trigger")
+	}
+	sess, sp, err := verifEngine(10, 10).NewSession(sa, trig)
+	zzverif.Assert(err == nil, "NewSession failed")
+	seen := ""
+	if sess.Contact().LastSeenOn() != nil {
+		seen = sess.Contact().LastSeenOn().String() // (when the triggering message was received: see VerifC06_Engine for that clause)
+	}
+	view.apply(sp.Events(), seen)
+	zzverif.Assert(verifSameSnapshot(view.render(), verifCVOf(sess.Contact(), sa).render()), "replaying the first sprint's events over the starting contact does not reproduce the session contact")
+	zzverif.Cover("first-sprint")
+	if sess.Status() != flows.SessionStatusWaiting {
+		return
+	}
+	view = verifCVOf(sess.Contact(), sa)
+	resume := verifResumeText("hi")
+	sp, err = sess.Resume(resume)
+	zzverif.Assert(err == nil, "Resume failed")
+	view.apply(sp.Events(), resume.ResumedOn().String())
+	zzverif.Assert(verifSameSnapshot(view.render(), verifCVOf(sess.Contact(), sa).render()), "replaying the second sprint's events over the contact before the resume does not reproduce the session contact")
+	zzverif.Cover("second-sprint")
 }
